@@ -1053,6 +1053,62 @@ def _concurrent_state_failures():
     return fails, n
 
 
+def _stamp_forward_failures():
+    """Bounded: the checksum cut-off stops and forwards change exactly, on the real binaries.  top -> out -> list, list calls
+    redo-stamp; two kinds of list: one that writes an output file and one that only pipes into redo-stamp (no file).  After a
+    full build: (1) the source is rewritten with the SAME content (new mtime): list runs, out and top do not; (2) the source
+    changes: `redo-ifchange top` runs list, out and top before it returns 0, and redo-ood is empty afterwards; both through the
+    out-of-band path (redo-ifchange) -- at -j1 and -j3.  -> (failures, n) or None"""
+    import time
+    bindir = build_redo_bin()
+    if not bindir:
+        return None
+    env = {k: v for k, v in os.environ.items() if not k.startswith('REDO') and k != 'MAKEFLAGS'}
+    env['PATH'] = bindir + ':' + env.get('PATH', '')
+    work = tempfile.mkdtemp(prefix='redo-verif-sf.', dir='/var/tmp')
+    fails, n = [], 0
+    try:
+        for kind in ('file', 'pipe'):
+            for j in (1, 3):
+                n += 1
+                proj = os.path.join(work, 'p%d' % n)
+                os.makedirs(proj)
+                tr = 'echo "$1" >>%s/trace\n' % proj
+                if kind == 'file':
+                    open(os.path.join(proj, 'list.do'), 'w').write(tr + 'redo-ifchange src\ncat src >"$3"\nredo-stamp <"$3"\n')
+                else:
+                    open(os.path.join(proj, 'list.do'), 'w').write(tr + 'redo-ifchange src\ncat src | redo-stamp\n')
+                open(os.path.join(proj, 'out.do'), 'w').write(tr + 'redo-ifchange list\ncat src\n')
+                open(os.path.join(proj, 'top.do'), 'w').write(tr + 'redo-ifchange out\nprintf "top:"; cat out\n')
+                open(os.path.join(proj, 'src'), 'w').write('v1\n')
+
+                def step(cmd):
+                    open(os.path.join(proj, 'trace'), 'w').close()
+                    r = subprocess.run(cmd, cwd=proj, env=env, capture_output=True, text=True, timeout=120)
+                    return r.returncode, sorted(open(os.path.join(proj, 'trace')).read().split())
+                rc, ran = step(['redo', '--no-log', '-j%d' % j, 'top'])
+                if rc != 0:
+                    continue
+                hist = 'top -> out -> list (redo-stamp, %s); redo top' % ('writes its output' if kind == 'file' else 'pipes into redo-stamp, no output file')
+                time.sleep(0.02)
+                os.utime(os.path.join(proj, 'src'), None)
+                open(os.path.join(proj, 'src'), 'w').write('v1\n')
+                rc, ran = step(['redo-ifchange', 'top'])
+                if rc != 0 or ran != ['list']:
+                    fails.append(dict(input=hist + '; rewrite src with the same content; redo-ifchange top', observed='exit %d, scripts run: %s' % (rc, ran), label='unlocked.second_phase_is_target',
+                                      clause='a checksummed target rebuilt with an unchanged checksum does not rebuild its dependents'))
+                open(os.path.join(proj, 'src'), 'w').write('v2 longer\n')
+                rc, ran = step(['redo-ifchange', 'top'])
+                ood = sorted(subprocess.run(['redo-ood'], cwd=proj, env=env, capture_output=True, text=True, timeout=60).stdout.split())
+                top = open(os.path.join(proj, 'top')).read() if os.path.exists(os.path.join(proj, 'top')) else None
+                if rc != 0 or ran != ['list', 'out', 'top'] or ood or top != 'top:v2 longer\n':
+                    fails.append(dict(input=hist + '; change src; redo-ifchange top', observed='exit %d, scripts run: %s, redo-ood: %s, top = %r' % (rc, ran, ood, top), label='unlocked.second_phase_is_target',
+                                      clause='when the checksum changes every dependent is rebuilt before the same command returns success'))
+    finally:
+        shutil.rmtree(work, ignore_errors=True)
+    return fails, n
+
+
 def _corpus_failures(prop):
     """Bounded: the demonstration scripts of the seeded changes kept for this property (seeded/<id>/demo/demo.sh, listed in
     seeded/corpus.json with the clause each one checks).  Each is a concrete history with the real binaries that exits 0
@@ -1157,6 +1213,13 @@ def conformance(prop, unit_names, pins_changed, labels_props):
                                 msg='clause fails on the real binaries for a concrete history (bounded probe contend)', where=REPO + '/src/builder.rs:run', site=None,
                                 text=h['clause'], rendered=json.dumps(h, indent=1), inputs=[h['input']], fn='run_body',
                                 label='run.start_holds_kernel_lock' if h['prop'] == 'C06' else 'run.record_read_under_lock', props=[prop]))
+    if ('gluebins' in unit_names or 'dirty' in unit_names or 'record' in unit_names) and prop in ('C03', 'C01', 'C02'):
+        r = _stamp_forward_failures()
+        if r and r[0]:
+            hits = r[0]
+            out.append(dict(oid='gluebins/unlocked_run_phases/unlocked.second_phase_is_target', msg='clause fails on the real binaries for a concrete history (bounded probe stamp-forward, %d histories)' % r[1],
+                            where=REPO + '/src/bin/redo/unlocked.rs:run', site=None, text=hits[0]['clause'], rendered=json.dumps(hits[:6], indent=1), inputs=[h['input'] for h in hits],
+                            fn='unlocked_run_phases', label='unlocked.second_phase_is_target', props=[prop]))
     if 'gluebins' in unit_names and prop in ('C03', 'C01'):
         r = _stamp_pipe_failures()
         if r and r[0]:
@@ -1336,6 +1399,8 @@ def bounded(prop, unit_names, labels_props):
             extra.append(('same-target-twice', _same_target_twice_failures, 'sched/run_body/run.first_pass_dedupes_by_id' if prop != 'C09' else 'sched/run_body/lock_new.registry_free', lambda h: (h['prop'] == 'C09') == (prop == 'C09')))
         if prop in ('C05', 'C13'):
             extra.append(('shell-line', _shell_line_failures, 'dofiles/start_self_shell_line/shell.sh_stops_at_the_first_failing_command', lambda h: prop in h['props']))
+        if prop in ('C03', 'C01', 'C02'):
+            extra.append(('stamp-forward', _stamp_forward_failures, 'gluebins/unlocked_run_phases/unlocked.second_phase_is_target', lambda h: True))
         if prop in ('C03', 'C01'):
             extra.append(('stamp-pipe', _stamp_pipe_failures, 'gluebins/stamp_digest/stamp.digest_covers_the_whole_input', lambda h: True))
         extra.append(('corpus', lambda: _corpus_failures(prop), None, lambda h: True))
